@@ -359,6 +359,9 @@ class Gen:
     def body_frame(self, marker=None, max_len=4096):
         r = self.r
         parts = []
+        if r.random() < 0.04:
+            # the encoder produces a size-0 body frame for an empty body
+            return {'k': 'body', 'ch': self.channel(), 'parts': []}
         if marker is not None:
             parts.append({'b': (b'#%d#' % marker).hex()})
         c = r.random()
